@@ -294,7 +294,9 @@ def check_C07(ctx):
         for pattern in ([bad, good], [good, bad], [good, bad, good], [bad], [bad, good, good]):
             for where in ("root", "sub"):
                 for pol in (0, 1, 2):
-                    for as_opt in (True, False):
+                    for as_opt, other in itertools.product((True, False), (None, "z zed", "a all", "A")):
+                        if other is not None and (pol != 0 and where == "sub"):
+                            continue
                         if as_opt:
                             d = gen.mkopt(kind, "n num")
                             argv = [t for v in pattern for t in ("-n", v)] if "" not in pattern else [t for v in pattern for t in ("--num", v)]
@@ -307,11 +309,23 @@ def check_C07(ctx):
                             d = gen.mkarg(kind, "N")
                             argv = list(pattern)
                             spec = "N..."
-                        leaf = gen.mkcmd("run r", decls=[copy.deepcopy(d)], spec=spec, policy=None)
+                        d = [d]
+                        if other is not None:
+                            # another variable of the same command is given a value that does convert, before or after the bad
+                            # one on the line, its name sorting before or after: the invocation is rejected all the same
+                            on = "-" + other.split()[0]
+                            d.append(gen.mkopt(rng.choice(["string", "int"]), other))
+                            argv = ([on, "5"] + argv) if rng.random() < 0.5 else (argv[:1] + [on, "5"] + argv[1:] if as_opt and len(argv) > 2 and False else [on, "5"] + argv)
+                            spec = "[%s] " % on + spec
+                            if not as_opt or rng.random() < 0.5:
+                                d.append(gen.mkarg("int", "ZZ"))
+                                argv = argv + ["7"]
+                                spec = spec + " ZZ"
+                        leaf = gen.mkcmd("run r", decls=copy.deepcopy(d), spec=spec, policy=None)
                         leaf["action"] = {"k": "ret"}
                         leaf["before"], leaf["after"] = {"k": "ret"}, {"k": "ret"}
                         if where == "root":
-                            root = gen.mkcmd("app", decls=[copy.deepcopy(d)], spec=spec, policy=pol)
+                            root = gen.mkcmd("app", decls=copy.deepcopy(d), spec=spec, policy=pol)
                             root["action"] = {"k": "ret"}
                             root["before"], root["after"] = {"k": "ret"}, {"k": "ret"}
                             av = argv
@@ -1038,6 +1052,12 @@ def check_C18(ctx):
             version = {"name": " ".join(rng.sample(onames, rng.randint(1, 2))), "text": "v1", "last": rng.random() < 0.6}
             vd = gen.mkopt("bool", version["name"])
             combined = decls + [vd] if version["last"] else [vd] + decls
+            # ... and Version may be called twice: the second call is one more declaration still
+            if rng.random() < 0.4:
+                version["last"] = True
+                version["again"] = {"name": " ".join(rng.sample(onames, rng.randint(1, 2))) if rng.random() < 0.7 else
+                                    version["name"].split()[0] + " " + rng.choice(["release", "rel", "r"]), "text": "v2"}
+                combined = decls + [vd, gen.mkopt("bool", version["again"]["name"])]
         exp = expected_decl_panic(combined)
         # which variable each name sets: address one option by one of its names
         argv = []
